@@ -7,43 +7,43 @@ VERIF = os.path.dirname(os.path.dirname(os.path.abspath(__file__)))
 CHECKS = {
     "C10": dict(engine="calltree", level="exploration", design="4/C10, 3.5",
                 technique="deterministic simulation: generated call trees re-run over drawn memoized subsets (forget / restart / evict histories), and concurrent callers under a seeded thread scheduler, with every stored provenance record compared to a reference model",
-                text="Generated call DAGs with repeated, batched, mapped, keyword-presented, ignore_result, failing-and-caught and failing-and-propagating sub-calls and file/custom resource handles. The root is run on an empty store, then up to four more times after forgetting the root plus a drawn subset of the calls beneath it (the rest stays memoized, including memoized exceptions), optionally after a restart or cache flush, singly or inside a batch. After every run the stored record of every call that must exist (direct invocations in order with argument hashes, resource handles, transitive function-version set, context, result type) must equal the model's, hence be identical for every memoized subset. In addition 2-3 threads run call scripts over a small DAG under the seeded scheduler of engine sched (sampled schedules plus single-pre-emption sweeps), so that sub-calls are also 'found in the store' between a caller's batch pre-check and its look-up under the per-call mutex; afterwards every stored record is compared with the model.",
+                text="Generated call DAGs with repeated, batched, mapped, keyword-presented, ignore_result, failing-and-caught and failing-and-propagating sub-calls and file/custom resource handles. The root is run on an empty store, then up to four more times after forgetting the root plus a drawn subset of the calls beneath it (the rest stays memoized, including memoized exceptions), optionally after a restart or cache flush, singly or inside a batch. After every run the stored record of every call that must exist (direct invocations in order with argument hashes, resource handles, transitive function-version set, context, result type) must equal the model's, hence be identical for every memoized subset. In addition 2-3 threads run call scripts over a small DAG under the seeded scheduler of engine sched (sampled schedules plus single-pre-emption sweeps), so that sub-calls are also 'found in the store' between a caller's batch pre-check and its look-up under the per-call mutex; afterwards every stored record is compared with the model. 30% of the filesystem histories re-run the root while stored mementos / results cannot be read (reported I/O errors on 5-40% of the reads): every record that exists must stay exact.",
                 note="Sampling of trees and memoized subsets. Invocations are compared by (function, argument hash)."),
     "C15": dict(engine="calltree", level="exploration", design="4/C15, 3.5",
                 technique="deterministic simulation: twin worlds from the same pre-state (batch vs. element-wise) compared slot by slot, store by store and execution by execution",
-                text="World A evaluates call_batch (raise_first_exception true/false) or map_over_range (range presented as list, tuple, range, generator, iterator or map object) over the root of a generated call tree; world B evaluates the same elements one by one in order. Batches have length 0-8 with duplicates, failing elements, a drawn pre-memoized subset, partial-application prefixes, cache on/off and an optional restart before the batch. Results must agree position by position (exceptions by class and message; the first failing slot is what is raised), each distinct element's body runs at most once and never for a pre-memoized element, and the final stores must be equal as sets of (name, argument hash, result type, value, invocation list).",
+                text="World A evaluates call_batch (raise_first_exception true/false) or map_over_range (range presented as list, tuple, range, generator, iterator or map object) over the root of a generated call tree; world B evaluates the same elements one by one in order. Batches have length 0-8 with duplicates, failing elements, a drawn pre-memoized subset, partial-application prefixes, cache on/off and an optional restart before the batch. Results must agree position by position (exceptions by class and message; the first failing slot is what is raised), each distinct element's body runs at most once and never for a pre-memoized element, and the final stores must be equal as sets of (name, argument hash, result type, value, invocation list). A quarter of the cases with pre-memoized elements inject, identically in both worlds, one reported I/O error on the first read of one element's stored memento; root functions may fail transiently with an exception that is not to be memoized (first execution per process).",
                 note="Sampling."),
     "C16": dict(engine="calltree", level="exploration", design="4/C16, 3.5",
                 technique="deterministic simulation: repeated runs of generated call trees under sequences of context arguments, checked against an inheritance/identity reference model incl. store probes under every context",
-                text="Call trees with context-argument overrides (including the empty dictionary) on inner edges are run repeatedly under drawn sequences of root contexts (A, B, A, none, ...), with sub-calls memoized beforehand under the same or other contexts, singly or in a batch, across restarts. After each run: function bodies saw only their declared parameters; exactly the calls whose effective context is new executed (a repeat under an earlier context executes nothing); every call has a memento under its effective context recording that context, and none under any other context of the universe; a run with further calls prevented executes no nested body and every nested call fails with a runtime error.",
+                text="Call trees with context-argument overrides (including the empty dictionary) on inner edges are run repeatedly under drawn sequences of root contexts (A, B, A, none, ...), with sub-calls memoized beforehand under the same or other contexts, singly or in a batch, across restarts. After each run: function bodies saw only their declared parameters; exactly the calls whose effective context is new executed (a repeat under an earlier context executes nothing); every call has a memento under its effective context recording that context, and none under any other context of the universe; a run with further calls prevented executes no nested body and every nested call fails with a runtime error. Trees contain prevented inner edges and nodes that raise exceptions which are not to be memoized (executed every time, never stored, must not leave anything behind for later calls of the thread).",
                 note="Sampling. Empty dictionary: no context for identity, 'attached' for inheritance. Prevention is exercised with arguments no other run uses."),
     "C02": dict(engine="calltree", level="exploration", design="4/C02, 3.5",
                 technique="deterministic simulation: seeded call/forget/restart/evict/clock-jump histories over scripted functions vs. a call-ledger reference model, on three backends",
-                text="Scripted functions return values from the documented result-type domain (54 catalogue kinds and nestings, incl. partitions) or raise (built-in, custom, two-argument constructor, function-local class, not-to-be-memoized). Histories of calls (normal, ignore_result, force_local), repeats, forget, forget_all, memento queries, restarts (fresh process over the same store), cache evictions and clock jumps run on filesystem, filesystem+cache (4 KiB - 4 MiB) and memory backends. The ledger demands: the body runs exactly once per distinct call and never again until forgotten; every later call returns an equal value of the same type (also after restart / eviction); the first call's value is usable; exceptions are replayed as the same class when rebuildable from a message, else as the memoized-exception type, with the original message; not-to-be-memoized exceptions are raised and executed every time and never recorded; the recorded result type matches.",
+                text="Scripted functions return values from the documented result-type domain (54 catalogue kinds and nestings, incl. partitions) or raise (built-in, custom, two-argument constructor, function-local class, not-to-be-memoized). Histories of calls (normal, ignore_result, force_local), repeats, forget, forget_all, memento queries, restarts (fresh process over the same store), cache evictions and clock jumps run on filesystem, filesystem+cache (4 KiB - 4 MiB) and memory backends. The ledger demands: the body runs exactly once per distinct call and never again until forgotten; every later call returns an equal value of the same type (also after restart / eviction); the first call's value is usable; exceptions are replayed as the same class when rebuildable from a message, else as the memoized-exception type, with the original message; not-to-be-memoized exceptions are raised and executed every time and never recorded; the recorded result type matches. Histories include a batch naming one call twice and an exception class living in a module that only a running body imports.",
                 note="Sampling. Function bodies are scripted through the builtins side channel. Memoized exception under ignore_result is not asserted (docstring and code disagree)."),
     "C17": dict(engine="calltree", level="exploration", design="4/C17, 3.5",
                 technique="deterministic simulation: seeded call/restart/cache-flush histories over partition merge chains vs. an overlay reference model",
-                text="Chains p0..pk (k<=4) return in-memory or on-disk partitions with overlapping string keys and supported values (incl. nested partitions); each level may declare the result of the level below as merge parent. Histories of calls at arbitrary levels, restarts and cache flushes force the parent to be just computed, read back from the memory cache, or read back from disk. Every returned partition must list exactly the overlay key set, list its own keys, return for each key the expected value, load single keys from a freshly obtained object, and be stored (memento present; no body runs for a stored call, also after restart).",
+                text="Chains p0..pk (k<=4) return in-memory or on-disk partitions with overlapping string keys and supported values (incl. nested partitions); each level may declare the result of the level below as merge parent. Histories of calls at arbitrary levels, restarts and cache flushes force the parent to be just computed, read back from the memory cache, or read back from disk. Every returned partition must list exactly the overlay key set, list its own keys, return for each key the expected value, load single keys from a freshly obtained object, and be stored (memento present; no body runs for a stored call, also after restart). In-memory partitions are built from dict, defaultdict, OrderedDict and ChainMap; pass-through functions hand on, unchanged, the partition another function returned.",
                 note="Sampling. The merge parent is obtained by calling the parent function in the child's body (the documented usage)."),
     "C03": dict(engine="evo", level="exploration", design="4/C03, 3.1",
                 technique="deterministic simulation: several fresh interpreters ('nodes') per generated program with seeded PYTHONHASHSEED, definition/import/first-query order permutations, sharing one store",
-                text="For batches of generated programs 3 (quick) or 4 (thorough) fresh interpreters are started, each with its own PYTHONHASHSEED drawn from the PRNG, its own permutation of definition order inside every module, of module import order and of the order in which version() is first asked. The function -> version map must be identical on all nodes; node 1 runs a call workload against an empty store and node 2 the same workload against the same store, where the side channel must record zero body executions and all values must equal node 1's.",
+                text="For batches of generated programs 3 (quick) or 4 (thorough) fresh interpreters are started, each with its own PYTHONHASHSEED drawn from the PRNG, its own permutation of definition order inside every module, of module import order and of the order in which version() is first asked. The function -> version map must be identical on all nodes; node 1 runs a call workload against an empty store and node 2 the same workload against the same store, where the side channel must record zero body executions and all values must equal node 1's. Programs also contain mutual recursion, lambda helpers, same-named variables in two modules, set-valued defaults, declared dependencies.",
                 note="Hash seeds and orders are sampled. A case is a batch of 30-40 programs; evaluations counts program x node runs."),
     "C12": dict(engine="evo", level="exploration", design="4/C12, 3.1",
                 technique="deterministic simulation: two-lifetime histories (store, restart, evolve the code base, read back) over generated names and evolutions",
-                text="(a) For generated cluster/module/function/explicit-version strings (versions over letters, digits and . _ - + = : # @ incl. adversarial shapes) the qualified name must split back into exactly its parts, and the entry stored under it must be found by calls (no re-execution), memento(), list_mementos() and list_memoized_functions(), in the same lifetime and after a restart. (b) A caller with a pinned version stores caller(x) that used a callee (directly or through an intermediate function); before the second lifetime the callee is edited, removed, renamed, made plain, re-clustered or has a tracked global changed; in default and named clusters, with and without cache: no operation may raise, caller(x) is served without executing, and references to callee versions that no longer exist are flagged external while live ones are not.",
+                text="(a) For generated cluster/module/function/explicit-version strings (versions over letters, digits and . _ - + = : # @ incl. adversarial shapes) the qualified name must split back into exactly its parts, and the entry stored under it must be found by calls (no re-execution), memento(), list_mementos() and list_memoized_functions(), in the same lifetime and after a restart. (b) A caller with a pinned version stores caller(x) that used a callee (directly or through an intermediate function); before the second lifetime the callee is edited, removed, renamed, made plain, re-clustered or has a tracked global changed; in default and named clusters, with and without cache: no operation may raise, caller(x) is served without executing, and references to callee versions that no longer exist are flagged external while live ones are not. Version strings also imitate the store's own file suffixes (.link, .memento.json, .versions ...); callee versions in the evolutions contain '::', ':', '#'.",
                 note="Sampling. Cluster names are drawn without ':' and '#' (the naming scheme is ambiguous otherwise). For a re-clustered callee only 'never raises / is served' is asserted."),
     "C01": dict(engine="evo", level="exploration", design="4/C01, 3.1",
                 technique="deterministic simulation: seeded program-edit histories over process lifetimes sharing one store, compared call by call with an un-memoized sibling lifetime running the same source texts",
-                text="Generated packages of memento and plain functions (constants, nested code, set/tuple constants, f-strings, positional and keyword-only defaults, tracked globals, bare/attribute/alias/hidden call edges, recursion, explicit versions, salts) are edited 1-8 times; each edit is delivered cross-process (files rewritten, fresh forked lifetime importing them, same persistent store) or in-process (re-execution of one def or of the whole module as a notebook cell, attribute rebinding, in-place mutation). After every edit auto-versioned functions are called plainly and through call/ignore_result/force_local/partial/with_context_args; each outcome must equal the outcome of a reference lifetime in which memento_function is a pass-through decorator, or be UndeclaredDependencyError. A mismatch is classified by the stale ingredient.",
+                text="Generated packages of memento and plain functions (constants, nested code, set/tuple constants, f-strings, positional and keyword-only defaults, tracked globals, bare/attribute/alias/hidden call edges, recursion, explicit versions, salts) are edited 1-8 times; each edit is delivered cross-process (files rewritten, fresh forked lifetime importing them, same persistent store) or in-process (re-execution of one def or of the whole module as a notebook cell, attribute rebinding, in-place mutation). After every edit auto-versioned functions are called plainly and through call/ignore_result/force_local/partial/with_context_args; each outcome must equal the outcome of a reference lifetime in which memento_function is a pass-through decorator, or be UndeclaredDependencyError. A mismatch is classified by the stale ingredient. Programs also contain mutual recursion, lambda helpers, two variables of one name in two modules, set-valued defaults, declared dependencies; two hand-written histories re-split explicit version strings (known finding).",
                 note="Sampling over programs and histories. fork()ed lifetimes share one hash seed. The generator encodes user discipline (explicit-version bump, alias re-binding)."),
     "C13": dict(engine="evo", level="exploration", design="4/C13, 3.1",
                 technique="deterministic simulation: seeded in-process event histories with interleaved version queries, refinement-checked against fresh lifetimes replaying the identical cells without queries",
-                text="A long lifetime executes a generated program as notebook cells in random order, then 2-8 redefinition / rebinding / mutation / swap events, with version queries through version(), fn_reference(), fresh modifier clones, fresh unregistered wrappers and previously held clones interleaved at every position on varying subsets (warm and cold cache entries). At every query point two fresh lifetimes (all cells; only live cells with mutations folded) replay the same cell texts without any earlier query and ask once: every query must succeed and equal the fresh answer, and the two fresh answers must agree.",
+                text="A long lifetime executes a generated program as notebook cells in random order, then 2-8 redefinition / rebinding / mutation / swap events, with version queries through version(), fn_reference(), fresh modifier clones, fresh unregistered wrappers and previously held clones interleaved at every position on varying subsets (warm and cold cache entries). At every query point two fresh lifetimes (all cells; only live cells with mutations folded) replay the same cell texts without any earlier query and ask once: every query must succeed and equal the fresh answer, and the two fresh answers must agree. Names are also bound for a while to a callable of another package (no hash rule) and then to the same memento function again; callers may declare dependencies=[...].",
                 note="Sampling. Clusters are never locked. Both sides execute byte-identical source units."),
     "C14": dict(engine="evo", level="exploration", design="4/C14, 3.1",
                 technique="deterministic simulation: invariant evaluated at every state of the program-evolution simulator (dependency sets and graph vs. the generator's reference graph; enforcement vs. the model's expected outcome)",
-                text="At every state reached by the C01 histories (freshly imported programs, after cross-process and in-process edits) the transitive and direct memento dependencies and the df() edges reported for every memento function are compared with the reference graph the generator knows (reachability through memento and same-package plain nodes, cycles, aliases, module attributes, explicit versions); every call of an auto-versioned function, plain or through a modifier clone, must raise UndeclaredDependencyError iff executing it un-memoized reaches a hidden dynamic call to a memento function outside the closure of the nearest auto-versioned memento frame.",
+                text="At every state reached by the C01 histories (freshly imported programs, after cross-process and in-process edits) the transitive and direct memento dependencies and the df() edges reported for every memento function are compared with the reference graph the generator knows (reachability through memento and same-package plain nodes, cycles, aliases, module attributes, explicit versions); every call of an auto-versioned function, plain or through a modifier clone, must raise UndeclaredDependencyError iff executing it un-memoized reaches a hidden dynamic call to a memento function outside the closure of the nearest auto-versioned memento frame. A third of the histories apply in-process edits WITHOUT the explicit-version bump and compare only the dependency reports, asked for drawn subsets of the functions in drawn orders.",
                 note="Sampling; reference graph and expected outcome come from ~80 lines of model code in sim/progen.py."),
     "C09": dict(engine="sched", level="exploration", design="4/C09, 2.5",
                 technique="deterministic simulation: seeded scheduler over real threads (baton passing, settrace pre-emption points, cooperative lock wrapper); random, PCT and single-pre-emption-sweep schedules",
@@ -51,7 +51,7 @@ CHECKS = {
                 note="Sampling of schedules (systematic only for one pre-emption on five base scenarios). Line-level, not bytecode-level, pre-emption. User function bodies are atomic."),
     "C05": dict(engine="store", level="exploration", design="4/C05, 3.2",
                 technique="deterministic simulation: seeded operation histories on three backends in lock-step vs. a dictionary reference model, restarts as operations",
-                text="Seeded operation histories over a small function/argument/value alphabet (prefix names, versions 1 vs 10, size classes relative to the drawn cache budget, key overrides, metadata, restarts) are executed in lock-step on the filesystem, filesystem+cache and memory backends; every answer is compared with a plain dictionary model, listings are compared after every operation and a full sweep (nothing forgotten reappears, every live entry reads its last value) runs at every restart and at the end.",
+                text="Seeded operation histories over a small function/argument/value alphabet (prefix names, versions 1 vs 10, size classes relative to the drawn cache budget, key overrides, metadata, restarts) are executed in lock-step on the filesystem, filesystem+cache and memory backends; every answer is compared with a plain dictionary model, listings are compared after every operation and a full sweep (nothing forgotten reappears, every live entry reads its last value) runs at every restart and at the end. Every fourth history is a fault-injecting one: some forget_call operations meet a reported I/O error at one of their file operations and are repeated; after the successful repeat nothing of the call may answer any more (memento, custom metadata, is_memoized).",
                 note="Sampling, not enumeration. Storage methods are driven directly with harness-built mementos. Metadata stored with a replaced/shared content object is treated as unspecified."),
     "C06": dict(engine="store", level="exploration", design="4/C06, 3.2",
                 technique="deterministic simulation: seeded cache-use histories checked against LRU laws, with the filesystem seam deciding whether a read touched the store",
@@ -63,11 +63,11 @@ CHECKS = {
                 note="Sampling. Ledger values are compared by type-aware deep equality after a pickle round trip."),
     "C19": dict(engine="store", level="exploration", design="4/C19, 3.2",
                 technique="deterministic simulation: operation and call histories under a mutation-intolerant filesystem seam (any audit-hook mutation event under the store roots is the violation)",
-                text="A store populated through a writable backend is reopened read-only (flag from argument or configuration dictionary, with and without cache, shared/separate metadata path) and driven by storage-level histories plus function-level calls, forget, forget_all, put_metadata and forget_cluster; any mutating filesystem event under the store roots, or any difference in the (path -> sha256) snapshot, is a violation; reads must answer per the dictionary model, memoize must be silent, forget/metadata writes must be rejected, un-memoized functions must execute on every call. Null storage and null runner clusters are driven by call histories: nothing is ever reported memoized / no body ever runs.",
+                text="A store populated through a writable backend is reopened read-only (flag from argument or configuration dictionary, with and without cache, shared/separate metadata path) and driven by storage-level histories plus function-level calls, forget, forget_all, put_metadata and forget_cluster; any mutating filesystem event under the store roots, or any difference in the (path -> sha256) snapshot, is a violation; reads must answer per the dictionary model, memoize must be silent, forget/metadata writes must be rejected, un-memoized functions must execute on every call. Null storage and null runner clusters are driven by call histories: nothing is ever reported memoized / no body ever runs. The read-only flag is passed as constructor argument, in the configuration, as constructor override over a configuration that says writable, or toggled after construction, and the backend is optionally rebuilt from its to_dict() form; the null-runner mode covers context / partial / nested calls and stores whose result objects or links were lost.",
                 note="Sampling. Trusts CPython audit events to cover all file mutations."),
     "C08": dict(engine="crash", level="fault_enumeration", design="4/C08, 3.3",
                 technique="deterministic simulation: fault injection at every mutating filesystem event (audit-hook seam), real process death, recovery lifetimes",
-                text="Every mutating filesystem event of sixteen memoization scenarios - first write, deduplicated blob, partition, exception, null, key override, re-memoization after forget, nested memoizations inside one call, call_batch (cold and partly memoized), DataFrame / ndarray / nested-dict results, partition merged onto a parent - (x cache on/off x shared/separate metadata path) is hit by every applicable fault variant (crash before, crash after open, torn write + crash, errno before, short write + errno, error on first write); afterwards fault-free process lifetimes must return correct values, raise nothing, recompute each call at most once and then be served from the store. Single faults are enumerated completely; the thorough tier adds seeded fault sequences of length 2-3 including crash during recovery.",
+                text="Every mutating filesystem event of sixteen memoization scenarios - first write, deduplicated blob, partition, exception, null, key override, re-memoization after forget, nested memoizations inside one call, call_batch (cold and partly memoized), DataFrame / ndarray / nested-dict results, partition merged onto a parent - (x cache on/off x shared/separate metadata path) is hit by every applicable fault variant (crash before, crash after open, torn write + crash, errno before, short write + errno, error on first write); afterwards fault-free process lifetimes must return correct values, raise nothing, recompute each call at most once and then be served from the store. Single faults are enumerated completely; the thorough tier adds seeded fault sequences of length 2-3 including crash during recovery. In the deduplication scenarios (equal bytes from another function, same bytes under the same override key) the other function is also asked first after the fault.",
                 note="Trusts CPython audit events to cover all file mutations, tmpfs semantics, process death = os._exit (no power-loss model)."),
 }
 
